@@ -355,6 +355,10 @@ impl SecondaryTransaction {
         if self.read_only {
             panic!("Txn is read-only but append is called");
         }
+        if columns.cardinality() == 0 {
+            // nothing to store: do not open (and later try to flush) a RowSet for zero rows
+            return Ok(());
+        }
         if self.mem.is_none() {
             let rowset_id = self.table.generate_rowset_id();
             let directory = self.table.get_rowset_path(rowset_id);
